@@ -11,7 +11,7 @@ for _f in sorted(_glob.glob(_os.path.join(_os.path.dirname(_os.path.abspath(__fi
 
 # Properties whose check is finished (green on the unchanged tree over several seeds, sensitivity
 # tested). Only these are claimed in MANIFEST.json; everything else is listed as not claimed.
-READY = """C01 C02 C03 C04 C05 C06 C07 C08 C09 C10 C11 C12 C13 C14 C16 C17 C18 C19 C20 C21 C22 C23 C24 C25 C26 C27 C28 C29 C30 C31 C33 C35 C36 C37 C38 C40 C41 C42 C43 C44 C45 C46 C47 C48""".split()
+READY = """C01 C02 C03 C04 C05 C06 C07 C08 C09 C10 C11 C12 C13 C14 C15 C16 C17 C18 C19 C20 C21 C22 C23 C24 C25 C26 C27 C28 C29 C30 C31 C32 C33 C34 C35 C36 C37 C38 C39 C40 C41 C42 C43 C44 C45 C46 C47 C48 C49""".split()
 
 HOOK_COMMITS = []
 NOT_CLAIMED = {}
